@@ -60,7 +60,7 @@ pub struct SyncSc {
     pub inject: Option<(u8, u32)>,
 }
 
-pub const FAULT_KINDS: [OpKind; 5] = [OpKind::Write, OpKind::Rename, OpKind::Open, OpKind::PipeWrite, OpKind::Spawn];
+pub const FAULT_KINDS: [OpKind; 6] = [OpKind::Write, OpKind::Rename, OpKind::Open, OpKind::PipeWrite, OpKind::Spawn, OpKind::Readdir];
 
 pub const NAME_PARTS: &[&str] = &[
     "a", "b.txt", "sp ace", "q'uo", "d\"q", "back\\sl", "$dol", "st*r", "qu?", "[br]", "tab\there", "-dash", ".hid", "ünï", "e", "x.tmp", "target",
